@@ -362,7 +362,7 @@ func TestC13_Limits(t *testing.T) {
 		"handler with its full length and nothing closes; a message more than one byte beyond the limit never reaches the handler and the connection is closed; with the limit disabled everything is accepted; "+
 		"server -> client messages within the limit arrive intact on both transports; non-trivial = size within 16 bytes of the limit or of 32 KiB, or > 32 KiB with the limit disabled")
 	rapidGuard(t, "C13", c13lCheck)
-	runRapid(t, c13lCheck, tierN(1500, 30000), func(t *rapid.T) {
+	runRapid(t, c13lCheck, tierN(6000, 60000), func(t *rapid.T) {
 		c := genC13lCase(t)
 		f, nt := evalC13l(c)
 		ev.Case(c, nt, c.class())
